@@ -94,6 +94,14 @@ type c19rt struct {
 func (t *c19rt) RoundTrip(req *http.Request) (*http.Response, error) {
 	t.rec = &c19rec{hdr: http.Header{}, status: http.StatusOK}
 	sreq := &http.Request{Method: req.Method, URL: req.URL, Header: http.Header{}}
+	if t.accept == nil {
+		// the request as the client made it
+		for k, vs := range req.Header {
+			for _, v := range vs {
+				sreq.Header.Add(k, v)
+			}
+		}
+	}
 	for _, a := range t.accept {
 		sreq.Header.Add("Accept", a)
 	}
@@ -107,7 +115,13 @@ func (t *c19rt) RoundTrip(req *http.Request) (*http.Response, error) {
 func VerifC19_WriterToClient() {
 	n := verif_Choose("results", 0, 2+verif_Tier())
 	results := c19results(n)
+	// accept == nil: the server sees the library client's own request headers;
+	// otherwise an intermediary rewrote the Accept header. The server helper is
+	// configured with or without the JSON preference.
 	rt := &c19rt{results: results, preferJson: true, accept: [][]string{nil, {"application/json"}, {"*/*"}, {"text/html, application/json;q=0.9"}}[verif_Choose("accept", 0, 3)]}
+	if rt.accept == nil {
+		rt.preferJson = verif_Bool("serverPrefersJSON") // the library's own client against either server configuration
+	}
 	c, err := client.New("http://indexer.example", client.WithClient(&http.Client{Transport: rt}))
 	verif_Assume(err == nil)
 	mh := c19mh()
